@@ -979,3 +979,150 @@ func runFD06(p *Prog, r *RuleRun) {
 		r.Fail(funcDisplay(open)+":reserved-id-gate-missing", p.Position(open.Pos()), "Open never compares the configured codec's ID with FirstExternalCodecID: reserved IDs are accepted")
 	}
 }
+
+// ---------------------------------------------------------------- FD-09
+
+func init() {
+	register(&Rule{ID: "FD-09", Title: "truncation keep/drop decisions: a segment becomes the new head only if it holds entries >= newMin; tail truncation drops exactly the segments with BaseIndex > newMax",
+		Props: []string{"C04", "C05"}, Floor: 2, Run: runFD09})
+}
+
+func runFD09(p *Prog, r *RuleRun) {
+	v := newWalVocab(p)
+	dr := p.Func("", "WAL.DeleteRange")
+	lastFn := p.Func("", "state.lastIndex")
+	if !checkWalAnchors(r, v, map[string]*ssa.Function{"DeleteRange": dr}) || lastFn == nil {
+		return
+	}
+	minF := p.Field("types", "SegmentInfo", "MinIndex")
+	var headTxn, tailTxn *ssa.Function
+	for fn := range p.reachableFuncs(dr) {
+		if !v.isTxnSig(fn.Signature) || fn.Parent() == nil {
+			continue
+		}
+		seals, setsMin := false, false
+		for _, b := range fn.Blocks {
+			for _, ins := range b.Instrs {
+				if ci, ok := ins.(ssa.CallInstruction); ok && eventName(ci) == "types.SegmentWriter.ForceSeal" {
+					seals = true
+				}
+				if st, ok := ins.(*ssa.Store); ok && fieldOfAddr(st.Addr) == minF {
+					setsMin = true
+				}
+			}
+		}
+		if seals {
+			tailTxn = fn
+		} else if setsMin {
+			headTxn = fn
+		}
+	}
+	if headTxn == nil || tailTxn == nil {
+		r.Unknown("anchor:txns", "?", "head/tail truncation transaction bodies not found under DeleteRange")
+		return
+	}
+	symbols := func(bound string) func(val ssa.Value) string {
+		return func(val ssa.Value) string {
+			switch x := val.(type) {
+			case *ssa.UnOp:
+				if x.Op == token.MUL {
+					if fv, ok := x.X.(*ssa.FreeVar); ok {
+						if pt, ok := fv.Type().(*types.Pointer); ok {
+							if b, ok := pt.Elem().Underlying().(*types.Basic); ok && b.Kind() == types.Uint64 {
+								return bound
+							}
+						}
+					}
+				}
+			case *ssa.Call:
+				if x.Call.StaticCallee() == lastFn {
+					return "last"
+				}
+				switch eventName(x) {
+				case "types.SegmentWriter.LastIndex":
+					return "tailLast"
+				case "time.Time.IsZero":
+					if fieldLoadName(x.Call.Args[0]) == "SealTime" {
+						return "b:unsealed"
+					}
+				}
+			}
+			switch fieldLoadName(val) {
+			case "MaxIndex":
+				return "Max"
+			case "BaseIndex":
+				return "Base"
+			}
+			return ""
+		}
+	}
+	effect := func(ins ssa.Instruction, eval func(ssa.Value) fdVal) (string, bool) {
+		switch x := ins.(type) {
+		case *ssa.MapUpdate:
+			return "DROPPED", true
+		case *ssa.Store:
+			if fieldOfAddr(x.Addr) == minF {
+				return "CHOSEN", true // the new head's MinIndex is moved up
+			}
+		case *ssa.Call:
+			if c := x.Call.StaticCallee(); c != nil && c.Name() == "getTailInfo" {
+				return "LOOP-LEFT", true
+			}
+		}
+		return "", false
+	}
+	// head truncation
+	{
+		spec := &fdSpec{Symbol: symbols("newMin"), Effect: effect, MaxVisits: 1}
+		names := []string{"newMin", "Max", "last", "tailLast", "b:unsealed"}
+		var bad []string
+		n := enumAssignments(names, 0, 3, func(a map[string]int64) bool {
+			return a["b:unsealed"] <= 1 && a["tailLast"] <= a["last"] && (a["tailLast"] == 0 || a["tailLast"] == a["last"])
+		}, func(a map[string]int64) {
+			keep := a["Max"] >= a["newMin"]
+			if a["b:unsealed"] == 1 {
+				keep = a["last"] >= a["newMin"]
+			}
+			chosen, dropped := false, false
+			for _, t := range fdRun(headTxn, spec, a) {
+				if strings.HasPrefix(t, "CHOSEN") {
+					chosen = true
+				}
+				if strings.HasPrefix(t, "DROPPED") {
+					dropped = true
+				}
+			}
+			if (keep && (dropped || !chosen)) || (!keep && (chosen || !dropped)) {
+				if len(bad) < 5 {
+					bad = append(bad, fmt.Sprintf("%s: model keep=%v, code chosen=%v dropped=%v", fmtAssign(a), keep, chosen, dropped))
+				}
+			}
+		})
+		r.Stats["head_witnesses"] = n
+		r.Check(len(bad) == 0 && n > 0, funcDisplay(headTxn)+":keep-or-drop", p.Position(headTxn.Pos()),
+			"a sealed segment becomes the new head iff MaxIndex >= newMin, the unsealed tail iff lastIndex() >= newMin; otherwise it is dropped",
+			"head truncation keeps or drops a segment differently from the model (a segment is the new head iff it still holds an entry >= newMin): an empty or fully truncated segment kept as head gets MinIndex = newMin beyond what it can hold, so entries appended at its BaseIndex afterwards are invisible to FirstIndex/GetLog: "+strings.Join(bad, " | "))
+	}
+	// tail truncation
+	{
+		spec := &fdSpec{Symbol: symbols("newMax"), Effect: effect, MaxVisits: 1}
+		names := []string{"newMax", "Base"}
+		var bad []string
+		n := enumAssignments(names, 0, 3, nil, func(a map[string]int64) {
+			drop := a["Base"] > a["newMax"]
+			dropped := false
+			for _, t := range fdRun(tailTxn, spec, a) {
+				if strings.HasPrefix(t, "DROPPED") {
+					dropped = true
+				}
+			}
+			if drop != dropped && len(bad) < 5 {
+				bad = append(bad, fmt.Sprintf("%s: model drop=%v, code dropped=%v", fmtAssign(a), drop, dropped))
+			}
+		})
+		r.Stats["tail_witnesses"] = n
+		r.Check(len(bad) == 0 && n > 0, funcDisplay(tailTxn)+":keep-or-drop", p.Position(tailTxn.Pos()),
+			"tail truncation drops exactly the segments whose BaseIndex > newMax",
+			"tail truncation drops/keeps segments differently from the model (drop iff BaseIndex > newMax): "+strings.Join(bad, " | "))
+	}
+}
